@@ -142,7 +142,8 @@ def column_order_rule(ctx, prop, rid, sets=None):
                     _nh, toks = it.call_function(ph, [], {"header": h, "use_double_colon": dbl, "header_aliases": sh, "header_columns": cols}, None, ph.node)
                     key[h] = toks
                 it.reset([])
-                row = {h: f"cell<{h}>" for h in perm}
+                # (cell texts contain the language names and the default key as words: text is never taken for a key)
+                row = {h: f"cell<{h}> children of the default garden, English (en) / French (fr) / fr / en" for h in perm}
                 out = it.call_function(pr, [], {"sheet_name": "survey", "row": row, "header_key": key, "default_language": dlang}, None, pr.node)
             except Raised as e:
                 failed = f"{perm}: raises {e.exc_name}{e.exc_args}"
